@@ -9,6 +9,7 @@ import (
 	"berty.tech/go-ipfs-log/entry"
 	"berty.tech/go-ipfs-log/entry/sorting"
 	"berty.tech/go-ipfs-log/iface"
+	"github.com/ipfs/go-cid"
 
 	"verifharness/evid"
 	"verifharness/hx"
@@ -30,7 +31,7 @@ type cmpFn struct {
 }
 
 func c19Domain() []*entry.Entry {
-	times := []int{0, 1, 2, 7, 1 << 31, math.MaxInt64}
+	times := []int{0, 1, 2, 7, 1 << 31, 1 << 53, 1<<53 + 1, math.MaxInt64}
 	key65 := bytes.Repeat([]byte{0x04}, 65)
 	key65[64] = 0x7f
 	ids := [][]byte{{}, {0x00}, {0x01}, {0x01, 0x00}, {0xff}, key65}
@@ -44,6 +45,17 @@ func c19Domain() []*entry.Entry {
 		}
 	}
 	return out
+}
+
+// sameDigestCids: distinct identifiers that carry the same multihash digest (CID version / codec differ).
+func sameDigestCids() []cid.Cid {
+	base := foreignCid("h-a")
+	return []cid.Cid{
+		base,
+		cid.NewCidV1(cid.DagProtobuf, base.Hash()),
+		cid.NewCidV1(cid.Raw, base.Hash()),
+		cid.NewCidV0(base.Hash()),
+	}
 }
 
 func sameClock(a, b iface.IPFSLogEntry) bool {
@@ -209,7 +221,7 @@ func c19Sort(run *evid.Run, es []iface.IPFSLogEntry, src string) {
 }
 
 func CheckC19(run *evid.Run) {
-	run.Rule = "axioms evaluated EXHAUSTIVELY over a synthetic domain of 108 entries = clock times {0,1,2,7,2^31,MaxInt64} x clock ids {empty,00,01,0100,ff,65-byte key} x 3 hashes: all 11664 ordered pairs (irreflexivity, totality, antisymmetry of the hash-tiebreak order; default = hash-tiebreak on distinct clocks; clock antisymmetry; smaller time first; first-write-wins = -last-write-wins; NoZeroes transparency) and all 1259712 ordered triples (transitivity); Sort over all permutations of seeded sub-multisets of <=6 entries (720 permutations each, both directions, two total comparators): permutation, sortedness, determinism; plus pairs/triples/sorts drawn from real seeded histories (thorough: 10^6 triples). Non-trivial pair = entries tie on time or on (time,id); distinct = (time relation, id relation, hash relation) class, counted"
+	run.Rule = "axioms evaluated EXHAUSTIVELY over a synthetic domain of 144 entries = clock times {0,1,2,7,2^31,2^53,2^53+1,MaxInt64} x clock ids {empty,00,01,0100,ff,65-byte key} x 3 hashes: all 20736 ordered pairs (irreflexivity, totality, antisymmetry of the hash-tiebreak order; default = hash-tiebreak on distinct clocks; clock antisymmetry; smaller time first; first-write-wins = -last-write-wins; NoZeroes transparency) and all 2985984 ordered triples (transitivity); plus 16 entries whose identifiers are DISTINCT CIDs WITH THE SAME DIGEST (CIDv0 / v1 dag-pb / v1 raw / v1 dag-cbor) at equal clocks, all pairs and triples; Sort over all permutations of seeded sub-multisets of <=6 entries (720 permutations each, both directions, two total comparators): permutation, sortedness, determinism; plus pairs/triples/sorts drawn from real seeded histories (thorough: 10^6 triples). Non-trivial pair = entries tie on time or on (time,id); distinct = (time relation, id relation, hash relation) class, counted"
 	run.Assumptions = []string{"clock times are non-negative as in every entry the library creates; negative times (hostile blocks only) are outside the property's domain"}
 	dom := c19Domain()
 	n := len(dom)
@@ -229,6 +241,32 @@ func CheckC19(run *evid.Run) {
 		run.Count("pairs", n)
 		run.Count("triples", n*n)
 	})
+	// distinct identifiers with the same digest, all equal-clock combinations: pairs exhaustively, triples exhaustively
+	var sd []*entry.Entry
+	for _, t := range []int{3, 1 << 53} {
+		for _, id := range [][]byte{{0x01}, {0x02}} {
+			for _, c := range sameDigestCids() {
+				sd = append(sd, &entry.Entry{Hash: c, Clock: entry.NewLamportClock(id, t), LogID: "x", Payload: []byte("sd")})
+			}
+		}
+	}
+	for _, a := range sd {
+		for _, b := range sd {
+			c19Pair(run, a, b, "same-digest identifiers")
+			for _, c := range sd {
+				c19Triple(run, a, b, c, "same-digest identifiers")
+			}
+		}
+	}
+	run.Count("same_digest_pairs", len(sd)*len(sd))
+	for k := 0; k+4 <= len(sd); k += 4 {
+		var es []iface.IPFSLogEntry
+		for _, e := range sd[k : k+4] {
+			es = append(es, e)
+		}
+		c19Sort(run, es, "same-digest identifiers")
+	}
+	run.NonTrivial("pair/same-digest")
 	run.Eval(n*n + n*n*n)
 	run.Exhaustive = true
 	run.Extra["exhaustive_scope"] = "pair and triple axioms over the stated 108-entry domain are enumerated completely; Sort permutations are complete per sampled multiset; real-history draws are sampled"
@@ -244,7 +282,7 @@ func CheckC19(run *evid.Run) {
 			key := desc(e)
 			if i%2 == 0 && len(es) > 0 {
 				// bias towards ties: same time as the first
-				e = dom[(rng.Intn(n)%18)+18*(indexOfTime(dom, es[0].GetClock().GetTime()))]
+				e = dom[(rng.Intn(n)%18)+18*(indexOfTime(dom, es[0].GetClock().GetTime()))%len(dom)]
 				key = desc(e)
 			}
 			if seen[key] {
